@@ -1169,6 +1169,42 @@ func (g *Gen) scenarios() []intent {
 			return []SymStep{st, cbOK, st, cbErr}
 		})
 	}
+	if c.EmailAuth && (c.Totp || c.Sms) {
+		// the e-mail authorisation of an enrolment: a wrong link first (refused, the right one still works),
+		// then one enrolment - which spends the authorisation - and a second attempt without a new e-mail
+		add(boost(3, "twofactor"), func() []SymStep {
+			b, u, ok := g.loggedIn()
+			var out []SymStep
+			if !ok {
+				out = append(out, g.loginStep(b, u, Desc{K: "pw", U: u}, false))
+			}
+			kind := "totp"
+			if c.Sms && (!c.Totp || g.rng.Intn(2) == 0) {
+				kind = "sms"
+			}
+			end := func(tok Desc) SymStep {
+				e := SymStep{Kind: "req", Req: &SymReq{Browser: b, Method: c.MailMethod, Route: "EmailVerifyEnd", Arg: kind}}
+				kv := []KV{{"token", tok}}
+				if c.MailMethod == "GET" {
+					e.Req.Query = kv
+				} else {
+					e.Req.Form = kv
+				}
+				return e
+			}
+			out = append(out, SymStep{Kind: "req", Req: &SymReq{Browser: b, Method: "POST", Route: "EmailVerify", Arg: kind}},
+				end(lit(pickS(g.rng, "AAAAAAAAAAAAAAAAAAAAAA==", "stale-link", "x"))), end(Desc{K: "sessval", B: b, V: "twofactor_auth_token"}))
+			enrol := func() []SymStep {
+				if kind == "totp" {
+					return []SymStep{g.req(b, "POST", "TotpSetup", nil), g.req(b, "POST", "TotpConfirm", []KV{{"code", Desc{K: "totpsess", B: b}}})}
+				}
+				return []SymStep{g.req(b, "POST", "SmsSetup", []KV{{"phone_number", lit(g.r.account(u).Phone)}}),
+					g.req(b, "POST", "SmsConfirm", []KV{{"code", Desc{K: "sessval", B: b, V: "sms_secret"}}})}
+			}
+			out = append(out, enrol()...)
+			return append(out, enrol()...)
+		})
+	}
 	if c.Totp || c.Sms {
 		// the pages around enrolment: confirm page with and without a pending secret, regenerate page with codes
 		add(boost(1, "twofactor"), func() []SymStep {
